@@ -15,7 +15,8 @@ EXPLANATION = (
     "effect tables of apply (imports C03.R1-R3: rights are dropped whenever king or rook leave home or the rook is taken, the ep "
     "target is set only behind a double pawn step); (R8) no pawn stays on a last rank: the generator splits every pawn move at the "
     "mover's last rank into the four promotions (imports C01.R7) and a promotion replaces the pawn by the chosen piece (imports "
-    "C03.R4). 'One king per side' is a consequence of legal play (no king capture: C01.R2) and is NOT decided here; the geometric "
+    "C03.R4); (R9) the states after an undo are reachable states: undo puts back what apply took where it took it and pops what apply "
+    "pushed (imports C04.R1, R2). 'One king per side' is a consequence of legal play (no king capture: C01.R2) and is NOT decided here; the geometric "
     "ep clause 'square behind the target is empty' is decided only through the double-step rows of R5.")
 ASSUMPTIONS = [
     "rustc MIR construction and the chessfacts extractor are faithful",
@@ -360,3 +361,17 @@ def run(ctx):
                    'as an ordinary move leaves a pawn on the first/eighth rank',
                nontrivial='floor' not in inst)
     ctx.floor('C12.R8-no-pawn-on-last-rank', 'promotion obligations imported', n8, 6)
+    # R9: the states after an undo are reachable states too (every generation and search step applies and undoes on the caller's board):
+    #     undo must put back what apply took, where it took it, and pop what apply pushed (same rule instances as C04.R1, R2)
+    from . import c04
+    sub = type(ctx)(ctx.prop, ctx.tier, ctx.facts, ctx.facts_info, ctx.seed)
+    c04.r1_stack_balance(sub)
+    c04.r2_mirror(sub)
+    n9 = 0
+    for s in sub.samples:
+        n9 += 1
+        ctx.ob('C12.R9-undo-restores', s['function'], s['instance'], s['ok'], found=s['found'], expected=s['expected'],
+               why='an undo that restores a piece on another square (or leaves a stack entry behind) breaks the invariants in the state the '
+                   'generator and the search continue from: e.g. an en-passant target with no pawn in front of it',
+               nontrivial='floor' not in s['instance'])
+    ctx.floor('C12.R9-undo-restores', 'undo obligations imported', n9, 20)
